@@ -392,7 +392,11 @@ class Run:
             return
         q = getattr(self, "qctx", None)
         if q is not None:
-            b = z3.ForAll(q[0] if isinstance(q[0], list) else [q[0]], z3.Implies(q[1], b))
+            pats = [t_ for t_ in getattr(self, "_q_terms", []) if _mentions(b, t_)][:1]
+            el = getattr(self, "_q_elem", None)
+            if el is not None and _mentions(b, el):
+                pats.append(el)  # alternative trigger: the iterated element itself
+            b = z3.ForAll(q[0] if isinstance(q[0], list) else [q[0]], z3.Implies(q[1], b), patterns=pats)
             self._q_pending.append(b)
         self.pc.append(b)
         self.solver.add(b)
@@ -817,6 +821,7 @@ class Run:
         self.solver_qf.add(rng)
         old = getattr(self, "no_fork", False)
         self.no_fork = True
+        self._q_elem = x.z if isinstance(x, SV) else None
         try:
             if isinstance(x, SV):
                 for f in self.type_facts(x):
@@ -824,6 +829,7 @@ class Run:
             bind(x)
             v = elt_eval()
         finally:
+            self._q_elem = None
             self.no_fork = old
             self.qctx = None
             self.solver.pop()
@@ -1424,9 +1430,10 @@ class Run:
                 n_ = self.heap.c_len(v.ty, v.z)
                 e = self.truthy(SV(v.ty.elem, self.heap.l_elem(v.ty, v.z, i)))
                 rng = z3.And(0 <= i, i < n_)
+                pat = [self.heap.l_elem(v.ty, v.z, i)]
                 if name == "any":
-                    return SV(T.BOOL, z3.Exists([i], z3.And(rng, e)))
-                return SV(T.BOOL, z3.ForAll([i], z3.Implies(rng, e)))
+                    return SV(T.BOOL, z3.Exists([i], z3.And(rng, e), patterns=pat))
+                return SV(T.BOOL, z3.ForAll([i], z3.Implies(rng, e), patterns=pat))
             raise Reject("%s over %r" % (name, v))
         if name == "abs":
             (v,) = args
@@ -1935,7 +1942,11 @@ class Run:
             if q is None:
                 return H.fresh(prefix, sort_)
             qv = q[0] if isinstance(q[0], list) else [q[0]]
-            return z3.Function(H.fresh_name(prefix), *([H.I] * len(qv) + [sort_]))(*qv)
+            app = z3.Function(H.fresh_name(prefix), *([H.I] * len(qv) + [sort_]))(*qv)
+            if not hasattr(self, "_q_terms"):
+                self._q_terms = []
+            self._q_terms.append(app)
+            return app
 
         if ctor is not None:
             res = SV(ctor.ty, fresh_res("new_" + ctor.short, T.sort(ctor.ty)))
@@ -2025,7 +2036,7 @@ class Run:
         if not (z3.is_true(cond) or z3.is_false(cond)):
             if _only_logging(s.body) and _only_logging(s.orelse):
                 return  # both arms are dropped log statements: nothing to execute, no fork
-            if self.feasible(cond) and self.feasible(z3.Not(cond)) and _mergeable(s.body) and _mergeable(s.orelse):
+            if not has_quantifier(cond) and self.feasible(cond) and self.feasible(z3.Not(cond)) and _mergeable(s.body) and _mergeable(s.orelse):
                 if self.try_merged_if(s, cond):
                     return
         if self.choose(cond):
@@ -2328,18 +2339,24 @@ class Run:
         return entry_env, set(mods), head_before
 
     def check_loop_frame(self, havoced, head_after_havoc):
-        """Arrays not havoced at the head must be syntactically untouched by the body."""
-        for name, arr in self.heap.arr.items():
+        """Arrays not havoced at the loop head must not change for objects that existed at the head: either they
+        are syntactically untouched, or (e.g. temporaries such as a comprehension's list) an obligation shows the
+        body wrote only to objects allocated inside the iteration."""
+        alloc_head = getattr(head_after_havoc, "alloc_at_head", None)
+        for name, arr in list(self.heap.arr.items()):
             if name in havoced or name == "$cls":
                 continue
             old = head_after_havoc.arr.get(name)
             if old is None:
-                # first touched inside the loop: it equals its initial symbol unless stored to
-                if not z3.is_const(arr):
-                    raise Reject("loop body writes heap array %s that the loop frame does not list" % name)
+                if z3.is_const(arr):
+                    continue
+                old = z3.Const("%s0!%s" % (self.heap.tag, name), arr.sort())
+            if arr.eq(old):
                 continue
-            if not arr.eq(old):
+            if alloc_head is None:
                 raise Reject("loop body writes heap array %s that the loop frame does not list" % name)
+            r = z3.Int("lf_r!" + name)
+            self.oblige("loop.writes_only_fresh_objects.%s" % name, z3.Implies(z3.And(r >= 0, r < alloc_head), z3.Select(arr, r) == z3.Select(old, r)), site="loopframe", kind="frame")
 
     def st_For(self, s):
         it = self.ev(s.iter)
@@ -2394,6 +2411,7 @@ class Run:
         inv_at(z3.IntVal(0), "entry", False)
         entry_env, havoced, head_before = self.havoc_for_loop(s, c, spec, mk_cc())
         head = self.heap.copy()
+        head.alloc_at_head = self.cur_alloc()
         which = self.choose_n(2, "loop")
         if which == 0:
             # an arbitrary iteration
@@ -2457,6 +2475,7 @@ class Run:
         inv_at("entry", False)
         entry_env, havoced, head_before = self.havoc_for_loop(s, c, spec, mk_cc())
         head = self.heap.copy()
+        head.alloc_at_head = self.cur_alloc()
         inv_at("assume", True)
         cond = self.truthy(self.ev(s.test))
         if self.choose(cond):
@@ -2513,6 +2532,25 @@ def str_order_axioms():
         z3.ForAll([a, b, c], z3.Implies(z3.And(_STR_LT(a, b), _STR_LT(b, c)), _STR_LT(a, c)), patterns=[z3.MultiPattern(_STR_LT(a, b), _STR_LT(b, c))]),
         z3.ForAll([a, b], z3.Implies(_STR_LT(a, b), z3.Not(_STR_LT(b, a))), patterns=[_STR_LT(a, b)]),
     ]
+
+
+def _mentions(e, t):
+    todo = [e]
+    seen = set()
+    tid = t.get_id()
+    while todo:
+        x = todo.pop()
+        i = x.get_id()
+        if i == tid:
+            return True
+        if i in seen:
+            continue
+        seen.add(i)
+        if z3.is_quantifier(x):
+            todo.append(x.body())
+        else:
+            todo.extend(x.children())
+    return False
 
 
 def _only_logging(stmts):
